@@ -347,6 +347,10 @@ func exec(c *core.Ctx, cs Case) {
 	if !ok {
 		panic("c20: unknown type " + cs.Ty)
 	}
+	if cs.Fn == "Probe" {
+		utilProbes(c)
+		return
+	}
 	switch cs.Ty {
 	case "int8":
 		execInt[int8](c, cs, t)
@@ -891,7 +895,7 @@ func utilProbes(c *core.Ctx) {
 	c.Count("cases_Probe")
 	check := func(ok bool, what string) {
 		if !ok {
-			c.Fail("util probe: "+what, "")
+			c.Fail("util probe: "+what, "the listed expressions are not all true; see utilProbes in harness/c20/c20.go")
 		}
 	}
 	x := 7
@@ -1238,7 +1242,7 @@ func run(c *core.Ctx) {
 		"for Min, Max, Sum, Product, Compare, Less, Coal; Clamp for every int8/uint8 v against 13x13 boundary (lo,hi) — all compared with the model; " +
 		"every (v,lo,hi) triple of int8 and uint8 for Clamp against the direct oracle only (2 x 2^24 calls, not in 'evaluations')")
 	// 2. boundary-dense and random samples of every type
-	n := c.N(400, 4000, 3000)
+	n := c.N(400, 2000, 3000)
 	for _, t := range typeList {
 		switch t.kind {
 		case 'i':
@@ -1246,7 +1250,7 @@ func run(c *core.Ctx) {
 			for _, fn := range []string{"Abs", "Clamp01", "Digits10", "DigitsSign10"} {
 				exec(c, Case{Fn: fn, Ty: t.name, Tuples: singles(bnd)})
 			}
-			for rep := c.N(1, 4, 2); rep > 0; rep-- {
+			for rep := c.N(1, 3, 2); rep > 0; rep-- {
 				sampled(c, t, func() int64 { return randInt(r, t, bnd) }, n)
 			}
 		case 'f':
@@ -1257,7 +1261,7 @@ func run(c *core.Ctx) {
 			for _, fn := range []string{"Abs", "Clamp01"} {
 				exec(c, Case{Fn: fn, Ty: t.name, Tuples: singles(bnd)})
 			}
-			for rep := c.N(1, 4, 2); rep > 0; rep-- {
+			for rep := c.N(1, 3, 2); rep > 0; rep-- {
 				sampled(c, t, func() int64 { return randFloat(r) }, n)
 			}
 		case 's':
